@@ -2,6 +2,7 @@ package main
 
 import (
 	"fmt"
+	"go/constant"
 	"go/types"
 	"strings"
 
@@ -449,11 +450,39 @@ func (fe *FE) applyContract(st *State, ins ssa.Instruction, ci *callInfo, res ss
 	cc.result = results
 	if con.IsTask || len(con.Ghosts) > 0 {
 		taskGhosts = map[string]Val{}
-		for _, g := range con.Ghosts {
-			sortS, gt := cc.qvarSort(g.Type)
-			taskGhosts[g.Name] = scalar(fe.newConst(st, "tg_"+g.Name, sortS), sortS, gt)
+		updated := map[string]bool{}
+		for _, oc := range con.OnCalls {
+			for _, cl := range oc.Clauses {
+				if cl.Kind == "after" || cl.Kind == "before" {
+					updated[cl.Var] = true
+				}
+			}
 		}
+		// initial values are evaluated in the callee's pre-state
+		savedOld := cc.inOld
+		cc.inOld = true
 		cc.ghostNS = taskGhosts
+		for _, g := range con.Ghosts {
+			cc.what = "callee ghost " + g.Name
+			iv := cc.eval(g.Init)
+			if g.Type != "" {
+				if gt := fe.V.resolveType(g.Type, cc.pkg); gt != nil {
+					if iv.Sort == "lit" {
+						iv = cc.coerceLit(iv, fe.S.scalarSort(gt))
+					}
+					iv.GoT = gt
+				}
+			}
+			if iv.Sort == "lit" {
+				iv = cc.coerceLit(iv, SInt)
+			}
+			if updated[g.Name] {
+				taskGhosts[g.Name] = fe.freshLike(st, "tg_"+g.Name, iv)
+			} else {
+				taskGhosts[g.Name] = iv
+			}
+		}
+		cc.inOld = savedOld
 	}
 	// 6. postconditions
 	for i, e := range con.Ensures {
@@ -600,6 +629,31 @@ func (fe *FE) havocItem(st *State, cc *Ctx, it, callee string) []string {
 	case it == "locks":
 		fe.havocHeap(st, "G_held")
 		return []string{"G_held"}
+	case strings.HasPrefix(it, "gset("):
+		inner := it[5 : len(it)-1]
+		parts := splitTop(inner)
+		if len(parts) != 2 {
+			fe.errorf("bad modifies item %q", it)
+			return nil
+		}
+		e, err := ParseExpr(strings.TrimSpace(parts[1]))
+		if err != nil {
+			fe.errorf("bad modifies item %q: %v", it, err)
+			return nil
+		}
+		cc.what = "modifies " + it
+		savedOld := cc.inOld
+		cc.inOld = cc.old != nil
+		v := cc.eval(e)
+		cc.inOld = savedOld
+		name := "G_" + strings.TrimSpace(parts[0])
+		fe.heapSort(name, arraySort([]string{SInt}, SInt))
+		arr := fe.heapTerm(st, name, arraySort([]string{SInt}, SInt))
+		fresh := fe.newConst(st, "hv", SInt)
+		n := fe.newConst(st, name, arraySort([]string{SInt}, SInt))
+		st.assume(eq(n, "(store "+arr+" "+v.T+" "+fresh+")"))
+		st.heap[name] = n
+		return []string{name}
 	case strings.HasPrefix(it, "mapcontents(") || strings.HasPrefix(it, "elems(") || strings.HasPrefix(it, "cell("):
 		lp := strings.Index(it, "(")
 		kind := it[:lp]
@@ -719,6 +773,7 @@ func (fe *FE) havocItem(st *State, cc *Ctx, it, callee string) []string {
 	for _, c := range fe.components(ft) {
 		n := fieldBase(t, field) + c.suffix
 		fe.heapSort(n, arraySort([]string{SInt}, c.sort))
+		fe.frameWholeOb(st, n, "call to "+callee)
 		fe.havocHeap(st, n)
 		names = append(names, n)
 	}
@@ -754,6 +809,9 @@ func (fe *FE) havocCell(st *State, p Val) []string {
 		return nil
 	}
 	var names []string
+	if len(loc.Idx) > 0 {
+		fe.frameOb(st, loc.Base, loc.Idx[0])
+	}
 	for _, c := range fe.components(loc.T) {
 		name := loc.Base + c.suffix
 		sortA := arraySort(idxSorts(len(loc.Idx), ""), c.sort)
@@ -775,6 +833,7 @@ func (fe *FE) havocCell(st *State, p Val) []string {
 func (fe *FE) havocRow(st *State, name string, _ []string, rowSort string, idx string) {
 	if idx != "dummy" {
 		fe.loopFrameOb(st, name, []string{idx})
+		fe.frameOb(st, name, idx)
 	}
 	sortA := "(Array Int " + rowSort + ")"
 	arr := fe.heapTerm(st, name, sortA)
@@ -803,6 +862,8 @@ func (fe *FE) execNative(st *State, ins ssa.Instruction, callee *ssa.Function, c
 		fe.addOb(st, "lock", "held-at-unlock@"+site, nil, held, "Unlock of a mutex that is not held is a fatal error")
 		fe.ghostArrSet(st, "G_held", m, "false", SBool)
 		return true, true
+	case "fmt.Sprintf", "fmt.Errorf", "errors.New":
+		return true, fe.execFmt(st, ins, callee, ci, res, site, full)
 	case "sort.SliceStable", "sort.Slice":
 		return true, fe.execSliceStable(st, ins, callee, ci, site)
 	case "(*sync.WaitGroup).Add":
@@ -944,6 +1005,7 @@ func (fe *FE) mapLenAxioms(st *State, mt *types.Map, m, ln string) {
 func (fe *FE) mapDelete(st *State, mt *types.Map, m string, key Val) {
 	db, _, lb := mapBases(mt)
 	fe.loopFrameOb(st, db, []string{m})
+	fe.frameOb(st, db, m)
 	ks := fe.S.scalarSort(mt.Key())
 	sortD := arraySort([]string{SInt, ks}, SBool)
 	h := fe.heapTerm(st, db, sortD)
@@ -1007,6 +1069,7 @@ func (fe *FE) execAppend(st *State, args []Val, com *ssa.CallCommon, res ssa.Val
 func (fe *FE) appendWrite(st *State, arr, at string, t Val, et types.Type, k int, realloc bool, s Val) {
 	if !realloc {
 		fe.loopFrameOb(st, elemBase(et), []string{arr})
+		fe.frameOb(st, elemBase(et), arr)
 	}
 	for _, c := range fe.components(et) {
 		name := elemBase(et) + c.suffix
@@ -1098,6 +1161,7 @@ func (fe *FE) execMapUpdate(st *State, x *ssa.MapUpdate, site string) bool {
 func (fe *FE) mapStore(st *State, mt *types.Map, m string, k, v Val) {
 	db, vb, lb := mapBases(mt)
 	fe.loopFrameOb(st, db, []string{m})
+	fe.frameOb(st, db, m)
 	ks := fe.S.scalarSort(mt.Key())
 	sortD := arraySort([]string{SInt, ks}, SBool)
 	h := fe.heapTerm(st, db, sortD)
@@ -1321,5 +1385,59 @@ func (fe *FE) execSliceStable(st *State, ins ssa.Instruction, callee *ssa.Functi
 	st.ghosts["iperm"] = scalar(ipi, "(Array Int Int)", nil)
 	hooks := fe.matchHooks(ci, "call")
 	fe.runHooks(st, hooks, ci, "after", nil, nil, site)
+	return true
+}
+
+// execFmt: fmt.Sprintf / fmt.Errorf / errors.New with the ghost `cite` (C20): the line an error message cites is
+// the integer bound to the first %d of a format that starts with "line %d" (-1 otherwise).
+// Assumed (extern): these functions are total, have no effect on modelled state, errors are fresh and non-nil.
+func (fe *FE) execFmt(st *State, ins ssa.Instruction, callee *ssa.Function, ci *callInfo, res ssa.Value, site, full string) bool {
+	fe.usedExt["extern "+full+" (native model: total, pure, fresh non-nil error; ghost cite/fmtline = first %d of a format starting with \"line %d\")"] = true
+	call := ins.(ssa.CallInstruction)
+	com := call.Common()
+	hooks := fe.matchHooks(ci, "call")
+	fe.runHooks(st, hooks, ci, "before", nil, nil, site)
+	lineOf := func() string {
+		// term for the cited line of a formatted string built by this call
+		k, ok := com.Args[0].(*ssa.Const)
+		if !ok || k.Value == nil {
+			return ""
+		}
+		f := constant.StringVal(k.Value)
+		if !strings.HasPrefix(f, "line %d") || len(ci.args) < 2 || ci.args[1].Kind != VSlice || fe.S.BV {
+			return "(- 1)"
+		}
+		sl := ci.args[1]
+		et := com.Args[1].Type().Underlying().(*types.Slice).Elem()
+		h := fe.heapTerm(st, elemBase(et), arraySort([]string{SInt, SInt}, SInt))
+		r0 := sel(h, sl.Arr, sl.Off)
+		fe.globalDecl("unbox_int", "(declare-fun unbox_int (Int) Int)")
+		return "(unbox_int " + r0 + ")"
+	}
+	var out Val
+	switch full {
+	case "fmt.Sprintf":
+		s := fe.newConst(st, "fmt", SStr)
+		if l := lineOf(); l != "" {
+			st.assume(eq("(fmtline "+s+")", l))
+		}
+		out = scalar(s, SStr, types.Typ[types.String])
+	case "fmt.Errorf":
+		r := fe.freshRef(st)
+		if l := lineOf(); l != "" {
+			st.assume(eq("(cite "+r+")", l))
+		}
+		out = scalar(r, SInt, res.Type())
+	case "errors.New":
+		r := fe.freshRef(st)
+		if ci.args[0].Kind == VScalar {
+			st.assume(eq("(cite "+r+")", "(fmtline "+ci.args[0].T+")"))
+		}
+		out = scalar(r, SInt, res.Type())
+	}
+	if res != nil {
+		st.vals[res] = out
+	}
+	fe.runHooks(st, hooks, ci, "after", []Val{out}, nil, site)
 	return true
 }
